@@ -8,11 +8,16 @@
 (*   coordinate objects (C15)  <->  functional conversions (C01-C03)       *)
 (*   geographic tuples  ->  inverse geodesic (C05)  ->  direct (C04)       *)
 (*   Cartesian tuples   ->  7-parameter transformation there and back (C06)*)
+(*   Cartesian tuples   ->  ATRF2014 at an epoch and back (C07)             *)
+(*   grid tuples        ->  MGA94 <-> MGA2020 pipeline (C13)                *)
+(*   grid tuples        ->  grid inverse / grid direct geodesic (C14)       *)
 (* A value is [k, p, f, foot, n]:                                          *)
 (*   k     "geo" | "cart" | "tm" (objects)  "llh" | "xyz" | "grid" (tuples)*)
 (*         "line" (distance, azimuths from point p to point q)             *)
+(*         "gline" (grid distance, grid bearings from p to q, nearby points)*)
 (*   p     abstract point it denotes (for a line: <<p, q>>)                *)
-(*   f     reference frame label ("G2020" | "G94")                         *)
+(*   f     reference frame label ("G2020" | "G94" | "ATRF" = ATRF2014 at   *)
+(*         the epoch of the session)                                      *)
 (*   foot  TRUE when the height was dropped on the way (2-D forms): the    *)
 (*         value denotes the foot point on the ellipsoid                   *)
 (*   n     angle notation of a geo object, "na" otherwise                  *)
@@ -27,10 +32,12 @@
 (***************************************************************************)
 EXTENDS Integers, Sequences, FiniteSets, TLC
 
-CONSTANTS Points,    \* e.g. {1, 2}
+CONSTANTS Points,    \* e.g. {1, 2, 3}
+          South,     \* the points in the southern hemisphere (the MGA pipeline has no hemisphere argument)
+          Near,      \* ordered pairs of points less than 100 km apart in one hemisphere (domain of the grid geodesics)
           MaxVals    \* workspace bound
 Nots == {"float", "dec", "hp", "dms"}
-Frames == {"G2020", "G94"}
+Frames == {"G2020", "G94", "ATRF"}
 
 VARIABLES ws,      \* the workspace: sequence of values
           hist     \* history: the calls made, <<action, argument indices / parameters>>
@@ -68,18 +75,32 @@ Direct(i, l)  == /\ Has(i, "llh") /\ Has(l, "line") /\ ws[l].p[1] = ws[i].p /\ w
 To94(i)   == Has(i, "xyz") /\ ws[i].f = "G2020" /\ Put(Val("xyz", ws[i].p, "G94", ws[i].foot, "na"), <<"To94", i, "">>)
 To2020(i) == Has(i, "xyz") /\ ws[i].f = "G94" /\ Put(Val("xyz", ws[i].p, "G2020", ws[i].foot, "na"), <<"To2020", i, "">>)
 
+\* ---- plate-motion model: GDA2020 <-> ATRF2014 at the session's epoch (geodepy.transform, conform14) ----
+ToAtrf(i)   == Has(i, "xyz") /\ ws[i].f = "G2020" /\ Put(Val("xyz", ws[i].p, "ATRF", ws[i].foot, "na"), <<"ToAtrf", i, "">>)
+FromAtrf(i) == Has(i, "xyz") /\ ws[i].f = "ATRF" /\ Put(Val("xyz", ws[i].p, "G2020", ws[i].foot, "na"), <<"FromAtrf", i, "">>)
+\* ---- the MGA94 <-> MGA2020 pipeline on grid tuples (southern hemisphere only: it has no hemisphere argument) ----
+MgaTo94(i)   == Has(i, "grid") /\ ws[i].f = "G2020" /\ ws[i].p \in South /\ Put(Val("grid", ws[i].p, "G94", TRUE, "na"), <<"MgaTo94", i, "">>)
+MgaTo2020(i) == Has(i, "grid") /\ ws[i].f = "G94" /\ ws[i].p \in South /\ Put(Val("grid", ws[i].p, "G2020", TRUE, "na"), <<"MgaTo2020", i, "">>)
+\* ---- grid geodesics (geodepy.geodesy vincinv_utm / vincdir_utm) between nearby points ----
+GridInverse(i, j) == /\ Has(i, "grid") /\ Has(j, "grid") /\ ws[i].f = ws[j].f /\ <<ws[i].p, ws[j].p>> \in Near
+                     /\ Put(Val("gline", <<ws[i].p, ws[j].p>>, ws[i].f, TRUE, "na"), <<"GridInverse", i, j>>)
+GridDirect(i, l)  == /\ Has(i, "grid") /\ Has(l, "gline") /\ ws[l].p[1] = ws[i].p /\ ws[l].f = ws[i].f
+                     /\ Put(Val("grid", ws[l].p[2], ws[i].f, TRUE, "na"), <<"GridDirect", i, l>>)
+
 Next == \/ \E p \in Points, n \in Nots : NewGeo(p, n)
         \/ \E i \in 1..Len(ws) : GeoCart(i) \/ GeoTM(i) \/ Tuple(i) \/ F_llh2xyz(i) \/ F_xyz2llh(i) \/ F_geo2grid(i)
-                                 \/ F_grid2geo(i) \/ To94(i) \/ To2020(i)
+                                 \/ F_grid2geo(i) \/ To94(i) \/ To2020(i) \/ ToAtrf(i) \/ FromAtrf(i) \/ MgaTo94(i) \/ MgaTo2020(i)
         \/ \E i \in 1..Len(ws), n \in Nots : CartGeo(i, n) \/ TMGeo(i, n) \/ GeoNotation(i, n)
-        \/ \E i, j \in 1..Len(ws) : Inverse(i, j) \/ Direct(i, j)
+        \/ \E i, j \in 1..Len(ws) : Inverse(i, j) \/ Direct(i, j) \/ GridInverse(i, j) \/ GridDirect(i, j)
 Spec == Init /\ [][Next]_vars
 
 (* ------------------------------ contracts ------------------------------ *)
-TypeOK == \A i \in 1..Len(ws) : ws[i].k \in {"geo", "cart", "tm", "llh", "xyz", "grid", "line"} /\ ws[i].f \in Frames
+TypeOK == \A i \in 1..Len(ws) : ws[i].k \in {"geo", "cart", "tm", "llh", "xyz", "grid", "line", "gline"} /\ ws[i].f \in Frames
 Immutable == [][\A i \in 1..Len(ws) : ws'[i] = ws[i]]_vars
 \* only objects carry a notation; lines are between two different points of one frame
 Shape == \A i \in 1..Len(ws) : /\ (ws[i].k = "geo") = (ws[i].n \in Nots)
-                               /\ (ws[i].k = "line" => ws[i].p[1] # ws[i].p[2])
+                               /\ (ws[i].k \in {"line", "gline"} => ws[i].p[1] # ws[i].p[2])
+                               /\ (ws[i].k = "gline" => ws[i].p \in Near)
+                               /\ (ws[i].f = "ATRF" => ws[i].k = "xyz")            \* only Cartesian tuples live in ATRF here
 \* a 2-D form never regains the height that was dropped (foot is monotone along derivations): by construction of the actions
 =============================================================================
